@@ -110,6 +110,21 @@ def parseOrders (s : String) : Option (List (List Coord.Task)) :=
   if s = "-" then some [] else
   (s.splitOn "|").mapM (fun (st : String) => if st = "-" then some [] else (st.splitOn ".").mapM parseTask)
 
+def showUTask : Coord.UTask → String
+  | .scan d => s!"{d}s"
+  | .pp t => showTask t
+
+def showUTasks (l : List Coord.UTask) : String := if l.isEmpty then "-" else ".".intercalate (l.map showUTask)
+
+/-- dir world: per directory `files:subs:fail` -/
+def parseDirWorld (entries : List String) : Option (List (List Nat × List Nat × Bool)) :=
+  entries.mapM (fun (e : String) =>
+    match e.splitOn ":" with
+    | [f, d, a] => match parseNats f, parseNats d with
+      | some f, some d => some (f, d, a == "t")
+      | _, _ => none
+    | _ => none)
+
 def showSimVerdict : Coord.SimVerdict → String
   | .ok => "ok" | .err => "err" | .circular => "circular" | .panic => "panic" | .outOfFuel => "out-of-fuel"
 
@@ -155,6 +170,20 @@ def handle (line : String) : String :=
         failFinal := fun f => (wl.getD f ([], false, false)).2.2 }
       let (v, steps) := Coord.simulate w n wl.length inputs choices orders
       let ss := steps.map (fun st => s!"{showTasks st.enabled}>{st.choice}>{showTasks st.spawned}")
+      s!"{showSimVerdict v} {if ss.isEmpty then "-" else "|".intercalate ss}"
+    | _, _, _, _, _ => "bad-field"
+  | ["coordscan", files, dirs, world, dirworld, choices] =>
+    match parseNats files, parseNats dirs, parseWorld (splitList world), parseDirWorld (splitList dirworld), parseNats choices with
+    | some files, some dirs, some wl, some dl, some choices =>
+      let w : Coord.ScanWorld := {
+        deps := fun f => (wl.getD f ([], false, false)).1,
+        failFirst := fun f => (wl.getD f ([], false, false)).2.1,
+        failFinal := fun f => (wl.getD f ([], false, false)).2.2,
+        dirFiles := fun d => (dl.getD d ([], [], false)).1,
+        dirSubs := fun d => (dl.getD d ([], [], false)).2.1,
+        scanFails := fun d => (dl.getD d ([], [], false)).2.2 }
+      let (v, steps) := Coord.ssimulate w wl.length dl.length files dirs choices
+      let ss := steps.map (fun st => s!"{showUTasks st.enabled}>{st.choice}>{showUTasks st.spawned}")
       s!"{showSimVerdict v} {if ss.isEmpty then "-" else "|".intercalate ss}"
     | _, _, _, _, _ => "bad-field"
   | _ => "bad-op"
